@@ -12,4 +12,5 @@ def check(ctx, rep):
     _par14.par_14(ctx, rep)     # INDENT / DEDENT bookkeeping sees every token once (not the tokens recovery re-feeds)
     from ..rules import tok as _tok5
     _tok5.tok_5(ctx, rep)       # the zero-width tokens of the epilogue stand at the end of the input: that is where a strict parse reports them
+    par.par_6c(ctx, rep)        # the mode flag reaches the parser only: same tokens and text in both modes
     rep.note('Not decided: equality of the two result trees as values.')
